@@ -11,6 +11,8 @@ open H2.Frame (Frame Body)
 structure R where
   s : Srv
   out : List Out := []
+  /-- frames the read loop handed to the stream loop in this step, in order (for the lockstep models) -/
+  fwd : List Frame := []
 deriving Inhabited
 
 def R.emit (r : R) (o : Out) : R := { r with out := r.out ++ [o] }
@@ -144,7 +146,10 @@ def sendDataFuel : Nat → R → Nat → R × Bool
                                    bodyRead := st.bodyRead + n,
                                    pendingEnd := st.pendingEnd || eof }
               let st' := if st'.bodySize ≥ 0 && (st'.bodyRead : Int) ≥ st'.bodySize then { st' with pendingEnd := true } else st'
-              if st'.pendLen == 0 then (r.updStrm uid fun _ => st', st', some true)   -- nothing read: break
+              if st'.pendLen == 0 then
+                -- nothing read: if the reader just ended, END_STREAM goes out on an empty DATA frame; break
+                let r := r.updStrm uid fun _ => st'
+                ((if st'.pendingEnd then r.emit (.data st.id true 0 {}) else r), st', some true)
               else (r.updStrm uid fun _ => st', st', none)
         else (r, st, none)
       match stop with
@@ -161,7 +166,8 @@ def sendDataFuel : Nat → R → Nat → R × Bool
           let r := r.emit (.data st.id fin step (st.src.digest st.pendOff step))
           let r := r.updStrm uid fun s => { s with pendOff := s.pendOff + step, pendLen := rem, window := s.window - step }
           let r := { r with s := { r.s with clientWindow := r.s.clientWindow - step } }
-          sendDataFuel fuel r uid
+          if fin then ((r.updStrm uid fun s => { s with stream := none }), true)   -- END_STREAM sent: done
+          else sendDataFuel fuel r uid
 
 def sendData (r : R) (uid : Nat) : R × Bool :=
   match r.getStrm uid with
@@ -197,6 +203,16 @@ structure Resp where
   stream : BodyStream := ⟨[], 'e'⟩
 deriving Repr, Inhabited
 
+/-- decode a complete header block with the reference decoder -/
+def decodeAll : Nat → Hpack.DecState → Bool → Nat → Bytes → List Hpack.Field → Option (Hpack.DecState × List Hpack.Field)
+  | 0, _, _, _, _, _ => none
+  | _, st, _, _, [], acc => some (st, acc)
+  | fuel + 1, st, bs, fp, b, acc =>
+    match Hpack.Dec.next st bs fp b with
+    | .ok st' (some f) rest => decodeAll fuel st' bs (fp + 1) rest (acc ++ [f])
+    | .ok st' none rest => decodeAll fuel st' bs fp rest acc
+    | _ => none
+
 /-- `fasthttpResponseHeaders` + the HEADERS frame of `finishRequest` -/
 def responseHeaders (r : R) (st : Strm) (resp : Resp) (hasBody : Bool) : R :=
   let fields : List (Bytes × Bytes) :=
@@ -207,7 +223,12 @@ def responseHeaders (r : R) (st : Strm) (resp : Resp) (hasBody : Bool) : R :=
     let (e', w) := Hpack.Enc.append e ⟨fs.1.1, fs.1.2, false⟩ fs.2
     (e', b ++ w)) (r.s.enc, [])
   let r := { r with s := { r.s with enc := enc } }
-  r.emit (.headers st.id (!hasBody) true block.length fields)
+  -- what the peer's reference decoder makes of the block
+  match decodeAll (block.length + 1) r.s.peerDec true 0 block [] with
+  | some (dec, fs) =>
+    ({ r with s := { r.s with peerDec := dec } } : R).emit (.headers st.id (!hasBody) true block.length (fs.map fun (f : Hpack.Field) => (f.name, f.value)))
+  | none =>
+    ({ r with s := { r.s with peerDecBroken := true, undefined := true } } : R).emit (.headers st.id (!hasBody) true block.length [] true)
 
 /-- `finishRequest`: returns (r, finished) -/
 def finishRequest (r : R) (uid : Nat) (resp : Resp) : R × Bool :=
@@ -496,6 +517,7 @@ def slStreamFrame (r : R) (fr : Frame) : R :=
 /-- a frame taken off `sc.reader` by the stream loop -/
 def slFrame (r : R) (fr : Frame) : R :=
   if r.s.slStopped then r else
+  let r := { r with fwd := r.fwd ++ [fr] }
   if fr.stream == 0 then
     match fr.body with
     | .settings st =>
@@ -566,7 +588,11 @@ def rlFrame (r : R) (fr : Frame) : R :=
     | .settings st =>
       if !st.ack then
         -- handleSettings: copy, resize the encoder, acknowledge; then forward
-        let s := { r.s with peerFrameSize := st.frameSize, enc := r.s.enc.setMax st.tableSize }
+        let announced := (st.pairs.filter fun p => p.1 == Gen.c_HeaderTableSize).getLast?
+        let pd := match announced with
+          | some (_, v) => { r.s.peerDec with limit := v }
+          | none => r.s.peerDec
+        let s := { r.s with peerFrameSize := st.frameSize, enc := r.s.enc.setMax st.tableSize, peerDec := pd }
         slFrame (({ r with s := s }).emit .settingsAck) fr
       else r
     | .windowUpdate inc =>
@@ -605,7 +631,7 @@ inductive Event where
   | idle
 deriving Repr, Inhabited
 
-def step (s : Srv) (ev : Event) : Srv × List Out :=
+def stepR (s : Srv) (ev : Event) : R :=
   let r : R := { s := s }
   let r := match ev with
     | .bytes b =>
@@ -614,7 +640,10 @@ def step (s : Srv) (ev : Event) : Srv × List Out :=
     | .done sid resp => slHandlerDone r sid resp
     | .cut => rlStop r
     | .idle => stopLoop (writeGoAway r 0 Gen.c_NoError "idle")
-  let r := settle r
+  settle r
+
+def step (s : Srv) (ev : Event) : Srv × List Out :=
+  let r := stepR s ev
   (r.s, r.out)
 
 /-- the handshake: SETTINGS then WINDOW_UPDATE -/
